@@ -30,6 +30,24 @@ CLAIMS = {
  "C16": dict(text="Theorems for all JSON-model trees: sizeJSONValue/JSONMapCodec.size/JSONArrayCodec.size equal the appended length; a JSON object/array in an unknown field is skipped exactly (Skip returns its encoded length). Round trip, struct-field and skipped positions are decided by the correspondence (model jread_* vs implementation), and the Descriptor walk is checked natively to render JSON equal to the value. PARTIAL: the round-trip theorem for the mutually recursive reader is not yet proved.",
              note=TB,
              tech="Coq proofs by nested induction on JSON trees + differential check of the JSON codecs"),
+ "C07": dict(text="PARTIAL. Theorems for every interleaving of any number of goroutines of the abstract construction machine (allocate / fill in / complete / publish codec objects): whatever is reachable from the shared registry is completely built; a codec object is written only by the goroutine that allocated it, only before completion, and never once any published object reaches it. The Publish guard is the code's discipline (codecs built during a struct build stay private; the struct codec is published after BuildStructCodec returns) and is tied to the code by running the real CodecForTypeRegistry under a deterministic scheduler (instrumented registry, every Load/StoreOrSwap a scheduling point, all two-goroutine schedules with <= 2 context switches + random 2-4 goroutine schedules over recursive / mutually recursive / shared-subtype families), exercising every codec at the moment it is published and comparing every result with a sequential build; plus free-running 8-goroutine first use (race detector in the thorough tier). Not covered by theorems: real data races on Go memory, sync.Map/Pool/Mutex internals.",
+             note=TB + " sync.Map/sync.Pool/atomic are assumed sequentially consistent; the Go memory model is not formalised.",
+             tech="Coq invariant proof over all interleavings of an abstract publication machine + deterministic schedule enumeration of the real construction code through an instrumented registry"),
+ "C11": dict(text="PARTIAL. The list of every expression in a decode path that turns input bytes into a string or byte slice is REGENERATED from /repo's source by a go/ast scanner on every run and a Coq theorem re-proved over it: every such site copies (string(data), append([]byte(nil), data...)), none casts or re-slices the input, and the scan still covers StringCodec/BytesCodec/InternedStringCodec; Marshal keeps the destination prefix. Physical sharing cannot be shown by a theorem: the harness checks on the running code that no decoded string / byte slice / map key / interned string lies inside the input buffer's address range (incl. spare capacity), scribbles over and re-uses the buffer and re-compares, snapshots the marshalled value, and checks the output range against the value's strings.",
+             note=TB + " The scanner (tools/aliasscan) is in the trusted base for the site list.",
+             tech="source-regenerated Coq site table with a finite theorem + pointer-range / scribble / snapshot checks"),
+ "C12": dict(text="PARTIAL. Theorems for all codec trees: proto-mode codecs only ever put wire types 0/1/2/5 in a tag; Timestamp is {1: seconds, 2: nanos} plain varints; slices of length-delimited elements are one tagged frame per element; proto maps are one key=1/value=2 entry message per entry; a default-mode slice codec reads a repeated-form element exactly as the proto-mode codec does; ProtoCompatibleTime only swaps the time.Time registration; the nested-repeated-field round trip is refuted (known finding D12). Correspondence: bytes and round trips under all four option combinations vs the model; natively an independent protobuf wire reader must accept the fully proto-compatible output and default mode must decode the repeated form to the same value.",
+             note=TB + " The independent protobuf reader is part of the harness (trusted).",
+             tech="Coq structural theorems over the codec tree + differential check + independent protobuf wire reader"),
+ "C17": dict(text="Theorems: a codec registered for exactly (type, tag) is the one used before any kind default; pointer targets are looked up with the field's option, slice elements and map keys/values with none (so the registered codec is found at every position); named types without a registration use their kind's codec; operations on other instances never change what an instance's registry holds (all histories). Correspondence: interleaved histories over 2-4 long-lived instances with random option/registration sets and the package-level functions; every result must equal the model under that instance's configuration.",
+             note=TB + " The per-instance state of the model is the registry only; pools and intern tables are covered by C10/C19.",
+             tech="Coq theorems on the registry/lookup model and an instance-history machine + differential multi-instance histories"),
+ "C19": dict(text="Theorems over every schedule of every number of goroutines of the interning machine (load pointer / lookup / lock / reload / lookup / copy+insert+store / unlock as atomic steps): the strings a goroutine has been handed back are exactly its inputs (transparency); every table version ever published maps each key to a string with that content. Correspondence: sequential histories of the real interned codec vs the model and vs a non-interned twin (new/repeated/empty/prefix-sharing/binary strings, buffer overwritten between calls, earlier results re-checked, encoding compared), 8 concurrent readers; pointer-range test that interned strings never reference the caller's buffer.",
+             note=TB + " Atomic pointer and mutex are modelled as sequentially consistent steps; the schedule-level model is not driven against the implementation (no yield points inside InternedStringCodec), only its sequential runs are.",
+             tech="Coq invariant proof over all schedules of the interning state machine + differential histories against a non-interned twin"),
+ "C20": dict(text="PARTIAL. Theorems on the model of rewrite's two passes, for all field lists and flag combinations: every field is left exactly as it was or gains one plenc tag after its existing tags (order and content of the others kept); fields with a plenc tag, private fields and unparsable tags are untouched; new indexes are strictly greater than every existing index and pairwise distinct; a second run changes nothing. Correspondence: the real binary (built from /repo/cmd/plenctag each run) on generated Go files, resulting tags compared field by field with the model (incl. 'errors reported => file not written'); on the implementation: no crash, parses, gofmt fixpoint, type-checks, second run no-op, plenc accepts every rewritten struct. Known finding D19 (multi-name fields).",
+             note=TB + " go/parser, go/format, go/types and fatih/structtag are trusted; formatting and compilation are observed, not proved.",
+             tech="Coq proofs by induction over field lists + differential runs of the real plenctag binary"),
 }
 
 checks = []
